@@ -112,7 +112,10 @@ def infer(n):
         for k in n.keys:
             infer(k)
         tys = [infer(v) for v in n.values]
-        keys = [k.value for k in n.keys]
+        try:
+            keys = [ast.literal_eval(k) for k in n.keys]
+        except Exception:
+            raise Refuse("a dictionary key that is not a literal")
         if all(_is_field_name(k) for k in keys) and len(set(keys)) == len(keys):
             return dict(zip(keys, tys))
         return ANY
@@ -353,6 +356,12 @@ def run(ctx):
     for key in ["{}", "{'a': 1}", "[1]", "[]", "(1, [2])", "{1}", "('a',)", "b'a'", "None", "1.5"]:
         cases.append((rng.choice(["Select", "SelectMany", "Where"]), f"{{'pt': 1, 'q': e}}[{key}]", rng.choice(["str", "ast", "callable"])))
         cases.append(("Select", f"f({{'a': e.x, 'b': 2}}[{key}], 1)", "str"))
+    # a dictionary literal some of whose keys are not Constant nodes (a negative number, a tuple, a name), read by
+    # attribute, by key and left alone: attribute access must look at the constant keys only (repo fix a2ed5f2)
+    for k1 in ["-1", "(1, 2)", "-2.5", "('a', 'b')", "+1", "()"]:
+        for tail in [".a", ".b", "['a']", "", ".a.pt", ".zip"]:
+            cases.append((rng.choice(["Select", "SelectMany"]), rng.choice([f"{{{k1}: 3, 'a': e.x}}{tail}", f"{{'a': e.x, {k1}: e}}{tail}", f"{{{k1}: e}}{tail}"]),
+                          rng.choice(["str", "ast", "callable"])))
     for i in range(0, len(cases), 300):
         typed_noise(rng)
         check_cases(ctx, cases[i : i + 300])
